@@ -177,10 +177,13 @@ JUNK_VALUES = [None, True, False, 0, -1, 1.5, "", "x", [], [None], [[1]], {}, {"
                # strings that mean something to code which inspects raw input before cleaning
                "toplevel-property-extension", "new-sdo", "property-extension", "bundle", "marking-definition", "2.0", "2.1", "extension-definition--x"]
 junk_leaf = st.one_of(st.none(), st.booleans(), st.integers(-10, 10), st.floats(allow_nan=False, allow_infinity=False, width=32), st.text(max_size=5),
-                      st.sampled_from(["type", "id", "identity", "bundle", "2.1", "2.0", "extensions", "objects"]))
+                      st.sampled_from(["type", "id", "identity", "bundle", "2.1", "2.0", "extensions", "objects", "toplevel-property-extension", "new-sdo",
+                                       "property-extension", "file", "statement", "tlp", "x-never-registered", "identity--3f2504e0-4f89-41d3-9a0c-0305e82c3301"]))
 junk_json = st.recursive(junk_leaf, lambda ch: st.one_of(st.lists(ch, max_size=3), st.dictionaries(
     st.one_of(st.sampled_from(["type", "id", "spec_version", "objects", "extensions", "created", "modified", "definition", "definition_type", "custom_properties",
-                               "granular_markings", "name", "labels", "0", "extension_type", "selectors", "hashes"]), st.text(max_size=4)), ch, max_size=5)), max_leaves=14)
+                               "granular_markings", "name", "labels", "0", "extension_type", "selectors", "hashes",
+                               "extension-definition--3f2504e0-4f89-41d3-9a0c-0305e82c3301", "ntfs-ext", "archive-ext", "marking_ref", "objects", "value"]),
+           st.text(max_size=4)), ch, max_size=5)), max_leaves=14)
 
 PRE_CLEAN_SLOTS = ["extensions", "type", "spec_version", "id", "objects", "custom_properties", "definition_type", "definition", "granular_markings",
                    "object_marking_refs", "created", "modified"]
@@ -312,9 +315,12 @@ def run(ctx):
         ctx.handle(case, fails)
 
     typed_junk = st.builds(lambda t, j: dict(j, type=t) if isinstance(j, dict) else {"type": t, "x": j},
-                           st.sampled_from(M.get("2.1").all_known_types()), junk_json)
+                           st.sampled_from(M.get("2.1").all_known_types() + ["x-never-registered"]), junk_json)
     core.run_given(ctx, st.tuples(st.one_of(junk_json, typed_junk, typed_junk), st.sampled_from(ENTRIES + ["parse_observable"]), st.sampled_from(["2.0", "2.1"])),
                    body_junk, ctx.n(5000, 25000), label="c17-arbitrary")
+
+    if not ctx.quick and ctx.worker in (None, 0):
+        coverage_guided(ctx, int(120000 * float(__import__("os").environ.get("VERIF_SCALE", "1"))))
 
     # depth-parameterised nesting (finite catalogue)
     ctx.collect_only = True
@@ -341,6 +347,44 @@ def run(ctx):
                         ctx.note(case, True, ["nesting:%d" % depth, "nest-input:" + ("text" if as_text else "dict"), "nest-site:%s/%s" % (host, where)])
                         ctx.handle(case, fails or [])
     ctx.collect_only = False
+
+
+def coverage_guided(ctx, runs):
+    """Supplementary engine (thorough tier, worker 0 only): atheris/libFuzzer drives the arbitrary-JSON strategies with
+    coverage feedback from the instrumented stix2 package (harness/fuzz_c17.py).  Best effort: if atheris is missing or
+    the subprocess fails, that is recorded as a note, never as a violation or a harness error."""
+    import os
+    import shutil
+    import subprocess
+    import sys
+    import tempfile
+    here = os.path.dirname(os.path.dirname(os.path.abspath(__file__)))
+    tmp = tempfile.mkdtemp(prefix="c17-fuzz-")
+    out = os.path.join(tmp, "out.json")
+    try:
+        try:
+            subprocess.run([sys.executable, os.path.join(here, "harness", "fuzz_c17.py"), out, str(runs), str(ctx.seed), os.path.join(tmp, "corpus")],
+                           stdout=subprocess.DEVNULL, stderr=subprocess.DEVNULL, timeout=900)
+        except subprocess.TimeoutExpired:
+            ctx.notes["atheris"] = "time budget hit (inconclusive)"
+        if not os.path.exists(out):
+            ctx.notes.setdefault("atheris", "no result file (atheris unavailable or crashed): tier skipped")
+            return
+        with open(out) as f:
+            res = json.load(f)
+        ctx.notes["atheris_executions"] = res.get("executions", 0)
+        if res.get("note"):
+            ctx.notes["atheris"] = res["note"]
+        corpus = os.path.join(tmp, "corpus")
+        ctx.notes["atheris_corpus_files"] = len(os.listdir(corpus)) if os.path.isdir(corpus) else 0
+        for f_ in res.get("failures", []):
+            # confirm outside the fuzzer before reporting
+            again = check_case(f_["case"]) or []
+            for key, detail in again:
+                if key == f_["key"]:
+                    ctx.record_violation(key, detail, f_["case"])
+    finally:
+        shutil.rmtree(tmp, ignore_errors=True)
 
 
 def replay(case):
